@@ -148,8 +148,33 @@ func c08Judge(c c08Cell) (sym, detail string, replay func() findings.Replay, ski
 	if !tr.OK() {
 		return "rejected", tr.Err, mk("", "", tr.Err, nil), false
 	}
-	got := drive.RunBash(tr.Script, drive.RunOpts{Stdin: stdin, Files: pre, KeepFiles: true, CPUSecs: 5, Backstop: 90 * time.Second})
-	rp := mk(tr.Script, got.Stdout, got.Stderr, got.Files)
+	sym, detail, replay = c08RunScript(tr.Script, stdin, pre, wantOut, wantFiles, mk)
+	if sym == "" && c.origin == "literal" {
+		// the same source as the SECOND target served by one transpiler object (tsh -t batch -t bash): a literal
+		// must reach the Bash script as it does from a fresh transpiler
+		if seq := drive.TranspileSeqSrc(src, drive.Batch, drive.Bash); seq[1].Script != tr.Script {
+			switch {
+			case seq[1].Panic != "":
+				return "transpiler-panic@second-target-of-one-transpiler", firstLine(seq[1].Panic), mk("", "", seq[1].Panic, nil), false
+			case !seq[1].OK():
+				return "rejected@second-target-of-one-transpiler", seq[1].Err, mk("", "", seq[1].Err, nil), false
+			}
+			if s2, d2, r2 := c08RunScript(seq[1].Script, stdin, pre, wantOut, wantFiles, mk); s2 != "" {
+				return s2 + "@second-target-of-one-transpiler", d2, r2, false
+			}
+		}
+	}
+	return sym, detail, replay, false
+}
+
+func c08RunScript(script, stdin string, pre map[string]string, wantOut string, wantFiles map[string]string, mk func(script, out, errs string, files map[string]string) func() findings.Replay) (sym, detail string, replay func() findings.Replay) {
+	sym, detail, replay, _ = c08RunScript4(script, stdin, pre, wantOut, wantFiles, mk)
+	return
+}
+
+func c08RunScript4(script, stdin string, pre map[string]string, wantOut string, wantFiles map[string]string, mk func(script, out, errs string, files map[string]string) func() findings.Replay) (sym, detail string, replay func() findings.Replay, skipped bool) {
+	got := drive.RunBash(script, drive.RunOpts{Stdin: stdin, Files: pre, KeepFiles: true, CPUSecs: 5, Backstop: 90 * time.Second})
+	rp := mk(script, got.Stdout, got.Stderr, got.Files)
 	switch {
 	case got.Runaway != "":
 		return "runaway", got.Runaway, rp, false
